@@ -122,6 +122,7 @@ def cases(tier, rng):
                            "srcs": [{"kind": kind, "script": [["o", j, j % 2] for j in range(ln)]}],
                            "fns": [dict(fn, flavour=s1.FLAV[(i + k) % 4], fail_at=k, fail_kind="stop")], "cons": {"fin": "exhaust"}}
     yield from _pyobj_cases()
+    yield from _dictkw_cases(rng)
     yield from s1.impure_fn_cases(tier, rng, KINDS, tools_subset=s1.AGG_TOOLS)
     yield from s1.odd_value_cases(tier, rng, KINDS, 300 if tier == "quick" else 5000, tools_subset=["all", "any", "list", "tuple"])
     nr = 3000 if tier == "quick" else 50000
@@ -214,6 +215,37 @@ def _pyobj_cases():
                        "fns": [], "cons": {"fin": "exhaust"}}
 
 
+def _dictkw_cases(rng):
+    """dict(pairs, **kw) inside the value model (Impl.dictKw / Std.dictKw, Properties/C02DictKw.lean): string keys k0..k3 in
+    the pairs, keywords that repeat some of them and add others, every source kind, faults in the source"""
+    n = 0
+    for kind in ("list", "iter", "agen", "aobj"):
+        for pairs in ([], [0], [0, 1], [1, 0, 1], [2, 0, 1, 0]):
+            for kw in ([], [1], [0, 3], [3, 0], [1, 1 + 2], [2, 1, 0]):
+                script = [["t", ["s", "k%d" % k], ["o", 10 * i + 1, i]] for i, k in enumerate(pairs)]
+                kws = [[["s", "k%d" % k], ["o", 500 + j, 50 + j]] for j, k in enumerate(kw)]
+                base = {"tool": "dict", "family": "dictkw", "params": {"kw": kws}, "srcs": [{"kind": kind, "script": script}], "fns": [],
+                        "cons": {"fin": "exhaust"}}
+                yield base
+                n += 1
+                if kind in ("agen", "aobj", "iter") and script and n % 2 == 0:
+                    pos = n % (len(script) + 1)
+                    yield dict(base, srcs=[{"kind": kind, "script": script[:pos] + [["!", 40 + pos]] + script[pos:]}])
+
+
+def _untext(x):
+    """string keys k<N> as the model's value domain has them: ints 1000+N"""
+    if isinstance(x, list):
+        if len(x) == 2 and x[0] == "s" and isinstance(x[1], str) and x[1][:1] == "k" and x[1][1:].isdigit():
+            return ["i", 1000 + int(x[1][1:])]
+        return [_untext(y) for y in x]
+    if isinstance(x, dict):
+        return {k: _untext(v) for k, v in x.items()}
+    if isinstance(x, str) and x[:1] == "k" and x[1:].isdigit():
+        return ["i", 1000 + int(x[1:])]
+    return x
+
+
 def _deep(v):
     if isinstance(v, (list, tuple)):
         return [type(v).__name__] + [_deep(x) for x in v]
@@ -299,6 +331,8 @@ def judge(case, obs, model):
         if any(ev[0] == "call" for ev in a["vis"]):
             issues.append(Issue("oracle", {"vis": a["vis"]}, "key-applied-to-default:" + tool))
     if model is not None and "error" not in model:
+        if case.get("family") == "dictkw":
+            obs = _untext(obs)
         issues += s1.correspondence(case, obs, model, lambda vis, out: [out])
     return issues
 
@@ -309,6 +343,8 @@ def _plain(j):
 
 def model_request(case):  # noqa: F811
     """the special value domains (lists, strings, floats) are outside the Lean value model"""
+    if case.get("family") == "dictkw":
+        return _untext(tools.model_request(case))
     vals = list(case["srcs"][0]["script"]) + [v for k, v in case["params"].items() if isinstance(v, list)]
     if not all(_plain(v) for v in vals) or case.get("family") in ("pyobj", "stopfault"):
         return None
